@@ -77,7 +77,8 @@ OtherFails(ts, c) ==
          {cl \in {"shape", "values"} :
             ~ CASE cl = "shape" -> Len(c.result) = NW(c)
                 [] cl = "values" -> \A w \in 1..NW(c) : \A i \in 1..Len(c.indexes) : \A u \in NodesOf(ts) :
-                                      c.result[w][i][u + 1] = PairCoal(ts, c.sets, c.indexes[i], WL(c, w), WR(c, w), u)}
+                                      IF c.span_normalise = 1 THEN PairCoalNormOK(ts, c.sets, c.indexes[i], WL(c, w), WR(c, w), u, c.result[w][i][u + 1])
+                                      ELSE c.result[w][i][u + 1] = PairCoal(ts, c.sets, c.indexes[i], WL(c, w), WR(c, w), u)}
     [] c.kind = "treedist" ->
          {cl \in {"rf", "kc_topology", "kc_branch_length"} :
             ~ CASE cl = "rf" -> c.rf = RF(ts, c.x, c.y, c.rx, c.ry)
